@@ -267,6 +267,97 @@ def run_tree(eng, p):
     return "ok"
 
 
+# ----------------------------------------------- CLI task option wiring
+def run_cli(eng, p):
+    """the real dclab-repack / dclab-compress task functions (options
+    symbolic) over the in-memory files: what the options say is what is
+    copied -- everything else is preserved"""
+    src, vals = build_source(eng, dict(p, logs=1, tables="attrs", basins=1,
+                                       summaries=False, empty_feature=False,
+                                       unknown_feature=False, cmax=3))
+    npx = SymNP()
+    cns, Wr = copier_ns(npx)
+    files = {"/d/in.rtdc": src}
+
+    class FP:
+        def __init__(self, s):
+            self.s = str(s)
+            self.suffix = ".rtdc"
+            self.name = self.s.rsplit("/", 1)[-1]
+
+        def rename(self, o):
+            files[o.s] = files.pop(self.s)
+
+        def __str__(self):
+            return self.s
+
+        def __fspath__(self):
+            return self.s
+
+    class h5shim:
+        Group, Dataset, h5o = symh5.Group, symh5.Dataset, symh5.h5o
+
+        @staticmethod
+        def File(path, mode="r", **kw):
+            key = str(path)
+            if mode == "w" or key not in files:
+                files[key] = symh5.File(key, "w")
+            fobj = files[key]
+            fobj.closed = False
+            fobj.mode = "r" if mode == "r" else "a"
+            return fobj
+
+    class common_shim:
+        @staticmethod
+        def setup_task_paths(pin, pout, allowed_input_suffixes=None):
+            return FP(pin), FP(pout), FP(str(pout) + "~")
+
+        @staticmethod
+        def get_command_log(paths, custom_dict=None):
+            return ["command log"]
+
+        @staticmethod
+        def assemble_warnings(w):
+            return ["warnings"]
+    task = p["task"]
+    opts = {}
+    if task == "repack":
+        opts = dict(strip_basins=bool(eng.branch(eng.bool("strip_basins").e)),
+                    strip_logs=bool(eng.branch(eng.bool("strip_logs").e)))
+
+    class util_shim:
+        @staticmethod
+        def hashfile(path, **kw):
+            return "md5"
+    Wr2 = sym_writer(np=npx, h5py=h5shim)
+    tns = shadow("dclab.cli.task_" + task, h5py=h5shim, common=common_shim,
+                 rtdc_copy=cns["rtdc_copy"], RTDCWriter=Wr2, util=util_shim)
+    with quiet():
+        tns[task](path_in="/d/in.rtdc", path_out="/d/out.rtdc", **opts)
+    eng.prove(z3.BoolVal("/d/out.rtdc" in files and "/d/out.rtdc~" not in
+                         files), "task: result renamed to the output path")
+    out = files.get("/d/out.rtdc")
+    if out is None:
+        return "no output"
+    out.closed = False
+    ignore = {"/logs/dclab-compress"}
+    if opts.get("strip_logs"):
+        ignore.add("/logs")
+    if opts.get("strip_basins"):
+        ignore |= {"/basins", "/basin_events", "/events/basinmap0"}
+    src.closed = False
+    d = diff(eng, src, out, "", ignore)
+    eng.prove(z3.BoolVal(not d), "task output keeps everything the options "
+              "do not strip", info={"differences": d[:6], "options": opts})
+    if opts.get("strip_logs"):
+        eng.prove(z3.BoolVal("logs" not in out or not list(out["logs"])),
+                  "--strip-logs: no logs in the output")
+    if opts.get("strip_basins"):
+        eng.prove(z3.BoolVal("basins" not in out or not list(out["basins"])),
+                  "--strip-basins: no basins in the output")
+    return "ok"
+
+
 # ------------------------------------------- variable-length string logs
 class VLine:
     """variable-length string entry: byte length and character length"""
@@ -388,7 +479,8 @@ def run_varlog(eng, p):
 
 def run_case(name, params):
     eng = Engine(timeout_ms=20000)
-    fn = {"tree": run_tree, "varlog": run_varlog}[params["kind"]]
+    fn = {"tree": run_tree, "varlog": run_varlog, "cli": run_cli}[
+        params["kind"]]
     eng.explore(lambda e: fn(e, params))
     return eng.stats()
 
@@ -413,6 +505,8 @@ def cases(tier, seed):
         out.append(("tree %s" % (v or "base"), pp))
     for n in (1, 2):
         out.append(("varlog n=%d" % n, dict(kind="varlog", n=n)))
+    for task in ("repack", "compress"):
+        out.append(("cli %s options" % task, dict(kind="cli", task=task)))
     random.Random(seed).shuffle(out)
     return out
 
@@ -429,6 +523,46 @@ def replay(case, params, v):
     fails = []
     with tempfile.TemporaryDirectory(prefix="verif_c08_") as td, quiet():
         ps, pd = os.path.join(td, "s.rtdc"), os.path.join(td, "d.rtdc")
+        if p["kind"] == "cli":
+            import dclab.cli as cli
+            import dclab.rtdc_dataset.writer as Wm
+            Wm.version = "0.62.7"
+            with Wm.RTDCWriter(ps, mode="reset") as hw:
+                hw.store_feature("deform", np.linspace(.1, .2, 3))
+                hw.store_feature("image", np.arange(48).reshape(
+                    3, 4, 4).astype(np.uint8))
+                hw.store_metadata({"setup": {"channel width": 20.0},
+                                   "experiment": {"event count": 3}})
+                hw.store_log("fixed-log", ["line one", "line two"])
+                hw.store_table("tab", np.rec.array(
+                    [(1., 3.), (2., 4.)], dtype=[("a", float),
+                                                 ("b", float)]))
+                hw.store_basin("b0", "file", "hdf5", ["/d/o0.rtdc"],
+                               verify=False)
+            opts = {}
+            if p["task"] == "repack":
+                opts = dict(strip_basins=bool(vals.get("strip_basins",
+                                                       False)),
+                            strip_logs=bool(vals.get("strip_logs", False)))
+            getattr(cli, p["task"])(path_in=ps, path_out=pd, **opts)
+            with h5py.File(ps, "r") as a, h5py.File(pd, "r") as b:
+                for grp, strip in (("tables", False),
+                                   ("logs", opts.get("strip_logs")),
+                                   ("basins", opts.get("strip_basins")),
+                                   ("events", False)):
+                    have = grp in b and len(b[grp]) > 0
+                    if strip and have and grp != "logs":
+                        fails.append("%s present although stripped" % grp)
+                    if not strip and not have:
+                        fails.append("dclab-%s %r: group /%s of the input "
+                                     "is missing in the output" % (
+                                         p["task"], opts, grp))
+            if not fails:
+                return {"reproduced": False, "key": "not-reproduced",
+                        "detail": "task output complete on the real code"}
+            return {"reproduced": True,
+                    "key": "cli|%s|content-dropped" % p["task"],
+                    "detail": fails[0]}
         if p["kind"] == "varlog":
             n = p["n"]
             lines = []
